@@ -531,6 +531,10 @@ UPGRADER:
 				p.nextState(stateBodyChunkSizeLF)
 			default:
 				if !isHex(c) && p.chunkSize < 0 {
+					// only a chunk extension may follow the size.
+					if c != ';' && c != '\t' {
+						return ErrInvalidChunkSize
+					}
 					chunkSize, err := parseAndValidateChunkSize(string(data[start:i]))
 					if err != nil {
 						return err
